@@ -8,7 +8,7 @@ use crate::erun::*;
 use crate::escen::*;
 
 fn scenario(words: &[u16]) -> Scenario {
-    let p = Profile { max_cas: 7, max_tals: 2, max_objs: 4, versions: 1, fault_16: 2, obj_faults: true, cert_faults: false, pp_faults: false, vary_cfg: true, modules: 3 };
+    let p = Profile { max_cas: 7, max_tals: 2, max_objs: 4, versions: 1, fault_16: 2, obj_faults: true, cert_faults: false, pp_faults: false, vary_cfg: true, modules: 3, rrdp_16: 0, rrdp_repos: 2 };
     let mut sc = single_run(words, &p);
     let mut d = D::new(words);
     for _ in 0..11 {
